@@ -442,7 +442,16 @@ func TestC15_P_ShardedDirs(t *testing.T) {
 						return nil, err
 					}
 					other := *ls
-					return hamt.AttemptHAMTShardFromNode(sessionCtx, rn, &other)
+					if len(names)%2 == 0 {
+						return hamt.AttemptHAMTShardFromNode(sessionCtx, rn, &other)
+					}
+					// ... or the other way round: somebody else narrowed the node - with a link system that has no storage
+					// and a request context that is over by now - and the first holder goes on using ITS node
+					other.StorageReadOpener = nil
+					octx, cancel := context.WithCancel(sessionCtx)
+					_, err = hamt.AttemptHAMTShardFromNode(octx, rn, &other)
+					cancel()
+					return rn, err
 				}
 				if reifier == "Load+NodeReifier" {
 					// a link system that reifies whatever it loads: child shards reach the directory already reified
